@@ -68,7 +68,7 @@
    No theorem restricts the body durations: they may be zero, shorter than,
    equal to or any multiple of the period (or any integer at all). *)
 From Coq Require Import ZArith QArith Qabs List.
-From RV Require Import Delay.Model Delay.Proofs.
+From RV Require Import Delay.Model Delay.Proofs Delay.FloatPeriod Delay.FloatPeriodProofs.
 Import ListNotations.
 Open Scope Z_scope.
 
@@ -499,6 +499,17 @@ Example C16_nv_two_threads_on_grid :
   alarm (c_obj (crun s0 h)) = Some 580000.
 Proof. vm_compute. repeat split; reflexivity. Qed.
 
+(* ---- the float part of the constructor: `round(delay_period * 1e6)` in IEEE doubles (Delay/FloatPeriod.v) --------------
+   For every period of a whole number z of microseconds from 1 ms up to 2 s, written as the double nearest to z / 10^6
+   (what the literal 0.02, 0.001001 ... is), the expression yields exactly z: the model's integer period P of the theorems
+   above IS what the float code computes.  (A sweep of 2 000 000 doubles by vm_compute over the kernel's primitive floats,
+   lifted to the quantified statement; above 2 s the statement is not proved.) *)
+Theorem C16_period_in_microseconds_is_exact : forall z : Z, (1000 <= z < 2001000)%Z -> okz z = true.
+Proof. exact round_is_exact. Qed.
+(* non-vacuity / what the statement excludes: truncation instead of rounding (the pre-fix code, D7) loses a microsecond *)
+Example C16_nv_truncation_is_not_exact : okt 1001 = false /\ okz 1001 = true.
+Proof. exact truncation_loses_a_microsecond. Qed.
+
 Print Assumptions C16_expiry_on_grid.
 Print Assumptions C16_call_times.
 Print Assumptions C16_never_early.
@@ -523,3 +534,4 @@ Print Assumptions C16_two_threads_released_once.
 Print Assumptions C16_release_during_wait.
 Print Assumptions C16_two_threads_on_grid.
 Print Assumptions C16_two_threads_expiry.
+Print Assumptions C16_period_in_microseconds_is_exact.
